@@ -19,6 +19,21 @@ EDITS = [
  ("reorder two independent statements in teardown", "websocket/_app.py",
   "            self._stop_ping_thread()\n            self.keep_running = False\n            if self.sock:",
   "            self.keep_running = False\n            self._stop_ping_thread()\n            if self.sock:", ["C14", "C15"]),
+ ("hoist host.lower() out of the loop in SimpleCookieJar.get", "websocket/_cookiejar.py",
+  "        cookies = []\n        for domain, _ in self.jar.items():\n            host = host.lower()\n",
+  "        cookies = []\n        host = host.lower()\n        for domain, _ in self.jar.items():\n", ["C20"]),
+ ("string concatenation instead of an f-string in SimpleCookieJar.add", "websocket/_cookiejar.py",
+  "                        domain = f\".{domain}\"\n                    domain = domain.lower()\n                    cookie = (",
+  "                        domain = \".\" + domain\n                    domain = domain.lower()\n                    cookie = (", ["C20"]),
+ ("reorder independent assignments in proxy_info.__init__", "websocket/_http.py",
+  "            self.proxy_port = options.get(\"http_proxy_port\", 0)\n            self.auth = options.get(\"http_proxy_auth\", None)\n",
+  "            self.auth = options.get(\"http_proxy_auth\", None)\n            self.proxy_port = options.get(\"http_proxy_port\", 0)\n", ["C19"]),
+ ("explicit None test in WebSocketApp.close", "websocket/_app.py",
+  "        self.keep_running = False\n        if self.sock:\n            self.sock.close(**kwargs)",
+  "        self.keep_running = False\n        if self.sock is not None:\n            self.sock.close(**kwargs)", ["C14"]),
+ ("a local for the data length in WrappedDispatcher.send", "websocket/_dispatcher.py",
+  "        self.dispatcher.buffwrite(sock, data, send, self.handleDisconnect)\n        return len(data)",
+  "        size = len(data)\n        self.dispatcher.buffwrite(sock, data, send, self.handleDisconnect)\n        return size", ["C12"]),
  ("mirror a comparison in check()", "websocket/_app.py",
   "                    time.time() - self.last_ping_tm > self.ping_timeout\n", "                    self.ping_timeout < time.time() - self.last_ping_tm\n", ["C16"]),
 ]
@@ -30,7 +45,10 @@ def sh(cmd, **kw):
 
 def main():
     bad = 0
+    only = sys.argv[1] if len(sys.argv) > 1 else None  # optional substring filter on the edit's name
     for name, path, old, new, props in EDITS:
+        if only and only not in name:
+            continue
         wt = tempfile.mkdtemp(prefix="wt_harmless_", dir="/tmp")
         os.rmdir(wt)
         sh(f"git -C /repo worktree add -q --detach {wt} HEAD")
